@@ -162,6 +162,70 @@ func runFuncResetPlacement(fset *token.FileSet, repo string) bool {
 	return true
 }
 
+// loader.parseExampleOutputComment: the loop `for j, comment := range <X>` that looks for the
+// `// Output:` marker inside a comment group: X = commentGroup.List (every comment of the group, true)
+// or commentGroup.List[:1] (only the first, false).
+func markerScanWholeGroup(fset *token.FileSet, repo string) bool {
+	f, err := parser.ParseFile(fset, filepath.Join(repo, "internal/loader/loader.go"), nil, 0)
+	if err != nil {
+		die("%v", err)
+	}
+	var body *ast.BlockStmt
+	for _, d := range f.Decls {
+		if fd, ok := d.(*ast.FuncDecl); ok && fd.Name.Name == "parseExampleOutputComment" {
+			body = fd.Body
+		}
+	}
+	if body == nil {
+		die("parseExampleOutputComment not found")
+	}
+	var outer *ast.RangeStmt
+	for _, s := range body.List {
+		if r, ok := s.(*ast.RangeStmt); ok && src(fset, r.X) == "f.Comments" {
+			outer = r
+		}
+	}
+	if outer == nil {
+		die("parseExampleOutputComment: loop over f.Comments not found")
+	}
+	// guards that restrict the groups to the function body
+	guards := 0
+	result := ""
+	for _, s := range outer.Body.List {
+		switch v := s.(type) {
+		case *ast.IfStmt:
+			c := src(fset, v.Cond)
+			if c == "commentGroup.Pos() <= fn.Body.Pos()" || c == "commentGroup.End() > fn.Body.End()" {
+				guards++
+			} else {
+				die("parseExampleOutputComment: unknown guard %s", c)
+			}
+		case *ast.RangeStmt:
+			if result != "" {
+				die("parseExampleOutputComment: more than one scan loop")
+			}
+			switch src(fset, v.X) {
+			case "commentGroup.List":
+				result = "whole"
+			case "commentGroup.List[:1]":
+				result = "first"
+			default:
+				die("parseExampleOutputComment: the marker scan ranges over %s (unknown shape)", src(fset, v.X))
+			}
+			// the expected lines must still be collected from the rest of the whole group
+			if n := strings.Count(src(fset, v.Body), "range commentGroup.List[j+1:]"); n != 4 {
+				die("parseExampleOutputComment: expected-line collection changed (%d)", n)
+			}
+		default:
+			die("parseExampleOutputComment: unexpected statement in the group loop")
+		}
+	}
+	if guards != 2 || result == "" {
+		die("parseExampleOutputComment: shape not recognised")
+	}
+	return result == "whole"
+}
+
 func main() {
 	if len(os.Args) < 2 {
 		die("usage: c30_extract <repo>")
@@ -260,6 +324,7 @@ func main() {
 		"tests": loops[0], "examples": loops[1], "final": *final,
 		"panicCompare": "prefix", "emptyDeclSentinel": sentinel >= 2,
 		"initOutputLeaks": runFuncResetPlacement(fset, repo),
+		"markerAnywhere":  markerScanWholeGroup(fset, repo),
 	}
 	js, _ := json.Marshal(out)
 	fmt.Println(string(js))
